@@ -107,6 +107,14 @@ async def scenario(loop, plan, out):
     node_ieee = {"same": zt.EUI64.deserialize(sim.eui64())[0], "unknown": zt.EUI64.UNKNOWN,
                  "other": zt.EUI64.deserialize(bytes.fromhex("c1c2c3c4c5c6c7c8"))[0]}[plan["node_ieee"]]
     node_info = zs.NodeInfo(nwk=zt.NWK(0), ieee=node_ieee, logical_type=zdo_t.LogicalType.Coordinator)
+    if plan.get("read_first"):
+        # the application has already read whatever the NCP held before (start-up does that): nothing of it may show up
+        # in what is read back after the restore
+        try:
+            await asyncio.wait_for(app.load_network_info(load_devices=True), 5000)
+            out["read_first"] = "ok"
+        except Exception as ex:
+            out["read_first"] = type(ex).__name__
     out["eui_before"] = sim.eui64()
     out["node_ieee_written"] = bytes(node_ieee.serialize())
     out["rewritable"] = bool(cap["nv3"] and cap["token_cmds"] and "getTokenData" in sim.cls.COMMANDS)
@@ -226,11 +234,12 @@ def check(plan) -> Result:
     if out.get("erased"):
         want_keys.discard(out["erased"])
         r.cls("key-erased-after-restore")
-    got_keys = {(hx(k.partner_ieee.serialize()), hx(k.key.serialize())) for k in rd.key_table}
+    # compared as multisets: an entry read back twice is not "the same table"
+    got_keys = [(hx(k.partner_ieee.serialize()), hx(k.key.serialize())) for k in rd.key_table]
     cmp("link-keys", sorted(got_keys), sorted(want_keys))
     if v >= 9:
         want_children = {c["ieee"] for c in ni["children"] if c["nwk"] is not None}
-        got_children = {hx(c.serialize()) for c in rd.children}
+        got_children = [hx(c.serialize()) for c in rd.children]
         cmp("children", sorted(got_children), sorted(want_children))
         want_addr = {c["ieee"]: c["nwk"] for c in ni["children"] if c["nwk"] is not None}
         got_addr = {hx(k.serialize()): int(n) for k, n in rd.nwk_addresses.items() if hx(k.serialize()) in want_addr}
@@ -247,6 +256,8 @@ def check(plan) -> Result:
         r.cls("firmware-table-sizes-small")
     if plan.get("reload"):
         r.cls("read-twice")
+    if out.get("read_first"):
+        r.cls("application-had-read-the-earlier-network:" + out["read_first"])
     if ni["link_keys"]:
         r.cls("link-keys")
     if ni["children"]:
@@ -301,6 +312,8 @@ def plans(draw, versions=tuple(range(4, 15))):
             "allow_burn": draw(st.booleans())}
     if draw(st.integers(0, 2)) == 0:
         plan["reload"] = True
+    if cap.get("prior") and draw(st.booleans()):
+        plan["read_first"] = True
     if nkeys >= 2 and draw(st.integers(0, 2)) == 0:
         plan["refuse_key"] = draw(st.integers(0, nkeys - 2))
     if nkeys >= 2 and draw(st.booleans()):
